@@ -73,10 +73,78 @@ def _run_one(args):
     return (name, "ok" if ok else "FAILED", f"expected {expect}, reported {rules} [{detail}]")
 
 
+def _run_seed(args):
+    """apply a seeded patch to a scratch copy and run the property's analysis on it"""
+    import subprocess
+    prop, modname, name, patch, expect_detect = args
+    tmp = tempfile.mkdtemp(prefix="aurelsa_seed_")
+    try:
+        shutil.copytree(os.path.dirname(SRC), os.path.join(tmp, "src"))
+        subprocess.run(["git", "init", "-q"], cwd=tmp, check=True, capture_output=True)
+        r = subprocess.run(["git", "apply", "--whitespace=nowarn", patch], cwd=tmp,
+                           capture_output=True, text=True)
+        if r.returncode != 0:
+            return (name, "skipped", "patch does not apply to the current tree")
+        mod = importlib.import_module(modname)
+        rep = Report(prop, "quick", getattr(mod, "LEVEL", "other"))
+        rep.sources = Sources(os.path.join(tmp, "src", "aurel"))
+        try:
+            mod.run(rep)
+            from .common import load_known, match_known
+            known = load_known()
+            rules = sorted({f.rule for f in rep.findings if not match_known(known, prop, f)})
+        except AnalysisError as e:
+            rules = ["ANALYSIS-ERROR: " + str(e)[:80]]
+    finally:
+        shutil.rmtree(tmp, ignore_errors=True)
+    detected = bool(rules) and not rules[0].startswith("ANALYSIS-ERROR")
+    ok = detected if expect_detect else not rules
+    return (name, "ok" if ok else "FAILED",
+            f"expected {'a violation' if expect_detect else 'silence'}, reported {rules}")
+
+
+def _seed_jobs(prop, mod):
+    import json
+    from .common import VERIF
+    idx_path = os.path.join(VERIF, "seeded", "INDEX.json")
+    if not os.path.exists(idx_path):
+        return []
+    with open(idx_path) as f:
+        idx = json.load(f)
+    jobs = []
+    for name, e in sorted(idx.items()):
+        patch = os.path.join(VERIF, "seeded", name, "patch.diff")
+        if not os.path.exists(patch):
+            continue
+        if prop in e.get("detected_by", []):
+            jobs.append((prop, mod.__name__, "seed:" + name, patch, True))
+        elif name.startswith("twin-"):
+            jobs.append((prop, mod.__name__, "seed:" + name, patch, False))
+    return jobs
+
+
 def run(prop, mod, rep):
     muts = _load_mutants(prop, mod)
+    seeds = _seed_jobs(prop, mod) if rep.sources.root == SRC else []
+    if seeds:
+        with ProcessPoolExecutor(max_workers=min(16, len(seeds))) as ex:
+            sres = list(ex.map(_run_seed, seeds))
+        bad = [r for r in sres if r[1] == "FAILED"]
+        for n, st, d in sres:
+            if st == "ok":
+                rep.ok("selftest", n)
+            elif st == "skipped":
+                rep.note(f"self-test {n} skipped: {d}")
+        rep.extra_cov["selftest_seeds"] = {
+            "seeds": len(seeds), "as_expected": len([r for r in sres if r[1] == "ok"]),
+            "skipped": len([r for r in sres if r[1] == "skipped"]),
+            "samples": [f"{n}: {st} ({d})" for n, st, d in sres[:5]]}
+        if bad:
+            raise AnalysisError("self-test (seeded changes) failed: "
+                                + " | ".join(f"{n}: {d}" for n, _s, d in bad))
     if not muts:
-        rep.note("self-test: no mutants registered for this property")
+        if not seeds:
+            rep.note("self-test: no mutants registered for this property")
         return
     src_root = rep.sources.root if rep.sources.root != SRC else SRC
     jobs = [(prop, mod.__name__, m, src_root) for m in muts]
